@@ -9,9 +9,11 @@ import (
 	"sort"
 	"strings"
 	"sync"
+	"sync/atomic"
 	"time"
 
 	"github.com/thanos-io/thanos/pkg/block/metadata"
+	"github.com/thanos-io/thanos/pkg/compact"
 
 	"verif/harness/fixtures"
 	"verif/harness/simbucket"
@@ -208,8 +210,13 @@ type lcOpts struct {
 	faults       bool // seeded transient bucket errors for the compactor
 	gwFaults     bool // seeded transient errors for gateway syncs
 	crashRate    int  // per-mille chance that any compactor bucket operation kills the compactor
-	checkServing bool // availability after every bucket mutation + exactly-once at quiescence
-	checkNoDestr bool // C33
+	// coldRestartMetaFault k>0: the first time the compactor has nothing left to do more than 49 hours into the
+	// run (reached with the default delays; every object is then older than the partial-upload threshold),
+	// the process is killed and restarted without its local cache, and the body of the k-th meta.json it
+	// then fetches breaks off after the request succeeded.
+	coldRestartMetaFault int
+	checkServing         bool // availability after every bucket mutation + exactly-once at quiescence
+	checkNoDestr         bool // C33
 }
 
 type lcResult struct {
@@ -412,6 +419,36 @@ func (sc *lcScenario) execute(x *simkit.Exec, salt string, o lcOpts) lcResult {
 			})
 		}
 
+		// cmd/thanos runs the partial-upload cleanup not only at the end of an iteration but also from a
+		// periodic goroutine, concurrently with compaction, on whatever the latest sync left in Partial().
+		// Here that goroutine runs every cleanupInterval and, by seeded decision, right after a sync.
+		var curNode atomic.Pointer[compactorNode]
+		cleanupKick := make(chan struct{}, 1)
+		s.SetRate("cleanup-after-sync", []int{0, 100, 400}[x.Tape.Draw("rate:cleanup-after-sync", 3)])
+		s.Go("compactor-cleanup", func() {
+			for {
+				t := time.NewTimer(sc.cfg.defs.cleanupInterval)
+				select {
+				case <-ctx.Done():
+					t.Stop()
+					return
+				case <-t.C:
+				case <-cleanupKick:
+					t.Stop()
+					s.Probe("lc.cleanup_right_after_a_sync")
+				}
+				if isDone() {
+					return
+				}
+				if s.Park(ctx, s.OpID("compactor-cleanup", "start")) != nil {
+					return
+				}
+				if n := curNode.Load(); n != nil && !n.h.Crashed() {
+					n.cleanPartialMarked(ctx)
+				}
+			}
+		})
+
 		s.Go("compactor", func() {
 			defer func() { mu.Lock(); done = true; mu.Unlock() }()
 			// let the gateways take their first view
@@ -426,6 +463,7 @@ func (sc *lcScenario) execute(x *simkit.Exec, salt string, o lcOpts) lcResult {
 			defer func() { nodeCancel() }()
 			opCount := 0
 			quietIters := 0
+			armMetaFault, coldRestarted, metaFaultFired := 0, false, false
 			for iter := 0; iter < sc.maxIters; iter++ {
 				curIter = iter
 				if node == nil {
@@ -461,6 +499,14 @@ func (sc *lcScenario) execute(x *simkit.Exec, salt string, o lcOpts) lcResult {
 						return nil
 					}
 					h.InterceptReader = func(kind, name string, size int) (int, bool) {
+						if armMetaFault > 0 && kind == "get" && strings.HasSuffix(name, "/"+metadata.MetaFilename) && size > 0 {
+							armMetaFault--
+							if armMetaFault == 0 {
+								metaFaultFired = true
+								x.CountFault("meta-body-breaks-off-after-cold-restart")
+								return x.Tape.Draw("metaBodyFailAfter", size), true
+							}
+						}
 						// the matching get was counted by Intercept just before
 						if o.bodyFail && inSync && kind == "get" && res.syncReads == o.syncReadFail && !res.intercepted && size > 0 {
 							failedIter = curIter
@@ -476,7 +522,18 @@ func (sc *lcScenario) execute(x *simkit.Exec, salt string, o lcOpts) lcResult {
 						x.Troublef("compactor: %v", err)
 						return
 					}
-					node.onSync = func(in bool) { inSync = in }
+					node.onSync = func(in bool) {
+						inSync = in
+						kick := metaFaultFired
+						metaFaultFired = false
+						if !in && (s.Fault("cleanup-after-sync", s.OpID("cleanup-after-sync")) || kick) {
+							select {
+							case cleanupKick <- struct{}{}:
+							default:
+							}
+						}
+					}
+					curNode.Store(node)
 				}
 				before := mutations(bkt, "compactor")
 				err := node.iteration(nodeCtx)
@@ -485,6 +542,7 @@ func (sc *lcScenario) execute(x *simkit.Exec, salt string, o lcOpts) lcResult {
 					s.Probe("lc.compactor_shut_down_and_restarted")
 					h.Kill()
 					node = nil
+					curNode.Store(nil)
 					time.Sleep(10 * time.Second)
 					continue
 				}
@@ -494,6 +552,7 @@ func (sc *lcScenario) execute(x *simkit.Exec, salt string, o lcOpts) lcResult {
 					res.crashed = true
 					s.Probe("lc.compactor_crashed_and_restarted")
 					node = nil
+					curNode.Store(nil)
 					if sc.wipeLocal {
 						_ = os.RemoveAll(dataDir)
 					}
@@ -512,6 +571,21 @@ func (sc *lcScenario) execute(x *simkit.Exec, salt string, o lcOpts) lcResult {
 						return
 					}
 					return // C33 only judges the iteration in which the read failed
+				}
+				if err == nil && mutations(bkt, "compactor") == before && !hasDeletionMarks(bkt) && o.coldRestartMetaFault > 0 && !coldRestarted &&
+					s.Now() > compact.PartialUploadThresholdAge+time.Hour {
+					coldRestarted = true
+					s.Probe("lc.cold_restart_when_idle")
+					if os.Getenv("VERIF_DEBUG_LC") == salt {
+						fmt.Fprintf(os.Stderr, "--- cold restart after op %d at t=%v (iter %d)\n", len(bkt.Log()), s.Now(), iter)
+					}
+					h.Kill()
+					node = nil
+					curNode.Store(nil)
+					_ = os.RemoveAll(dataDir)
+					armMetaFault = o.coldRestartMetaFault
+					time.Sleep(10 * time.Second)
+					continue
 				}
 				if err == nil && mutations(bkt, "compactor") == before && !hasDeletionMarks(bkt) {
 					quietIters++
@@ -537,6 +611,9 @@ func (sc *lcScenario) execute(x *simkit.Exec, salt string, o lcOpts) lcResult {
 		})
 		s.Loop()
 		cancel()
+		if os.Getenv("VERIF_DEBUG_LC") == salt {
+			fmt.Fprintf(os.Stderr, "=== %s seed %d: %v\n%s\n", salt, x.Seed, sc.describe(), simbucket.FormatLog(bkt.Log(), 400))
+		}
 		if s.Stuck() {
 			x.Troublef("lifecycle/%s: scheduler stuck; parked=%v", salt, s.ParkedIDs())
 			return
